@@ -24,11 +24,14 @@ RULE = ("Seeded histories on one SNMPv3 client (3-25 steps): request (get, multi
 ASSUMPTIONS = [
     "a conformant agent increments snmpEngineBoots whenever its clock would go backwards; backward steps without a reboot are not generated",
     "the oracle never demands that a request succeed while it is physically impossible (the client cannot foresee a reboot)",
-    "client and agent clocks run at the same rate (both are driven by the simulator's virtual time); drift is not modelled",
+    "clock drift is modelled as a constant rate of the agent's engine clock relative to virtual time (0.5 ... 1.5, exaggerated "
+    "on purpose); a request is required to succeed only if the drift accumulated since the client last heard from the agent "
+    "is below 140 s - beyond that no client can be in time and bounded recovery is required instead",
 ]
 PROBES = ["passes_150s", "passes_days", "reboot", "clock_step", "slow_agent", "recovered_after_discontinuity",
           "failed_right_after_discontinuity", "disco_foreign_msgid", "disco_no_bindings", "disco_wrong_pdu", "level_auth",
-          "level_priv", "configured_context_engine"]
+          "level_priv", "configured_context_engine", "drift_within_window", "drift_beyond_window", "slow_agent_clock",
+          "fast_agent_clock"]
 shrink_lists = [("steps",)]
 BASE = (1, 3, 6, 1, 2, 1, 7)
 DELTAS = [1, 30, 149, 150, 151, 600, 3600, 86400, 30 * 86400]
@@ -65,7 +68,9 @@ def plan_for(tier: str, seed: int, i: int) -> dict:
     disco_fault = rng.choice(DISCO_FAULTS) if rng.random() < 0.12 else None
     return {"prop": ID, "proto": proto, "steps": steps, "disco_fault": disco_fault,
             "boots": rng.choice([0, 1, 7, 2**20]), "time0": rng.choice([0, 100, 149, 10**6, 2**31 - 10**8]),
-            "engine_cfg": gen.gen_bytes(rng, 12) if rng.random() < 0.2 else b"", "ctx_echo": rng.random() < 0.3}
+            "engine_cfg": gen.gen_bytes(rng, 12) if rng.random() < 0.2 else b"", "ctx_echo": rng.random() < 0.3,
+            # clock drift: the agent's engine clock runs slower or faster than the client's monotonic clock
+            "rate": rng.choice([1.0, 1.0, 1.0, 1.0, 0.5, 0.75, 1.25, 1.5])}
 
 
 def valid(plan: dict) -> bool:
@@ -85,6 +90,8 @@ def simplify(plan: dict):
             p = dict(plan); p["steps"] = list(plan["steps"]); p["steps"][i] = ["pass", 151]; yield p
     if plan["time0"] != 100:
         p = dict(plan); p["time0"] = 100; yield p
+    if plan.get("rate", 1.0) != 1.0:
+        p = dict(plan); p["rate"] = 1.0; yield p
     if plan["engine_cfg"]:
         p = dict(plan); p["engine_cfg"] = b""; yield p
 
@@ -95,7 +102,9 @@ def execute(plan: dict) -> dict:
     w = World()
     mib = {BASE + (1, 1, 1): ("str", b"value"), BASE + (1, 1, 2): ("int", 42), BASE + (1, 2, 1): ("c32", 7)}
     agent = w.add_agent(agent_for(proto, mib, boots=plan["boots"], time0=plan["time0"]))
-    agent.report_ctx_echo = bool(plan.get("ctx_echo"))   # Reports may echo the request's context engine id (RFC 3412 7.1)
+    agent.report_ctx_echo = bool(plan.get("ctx_echo"))
+    rate = float(plan.get("rate", 1.0))
+    agent.rate = rate   # Reports may echo the request's context engine id (RFC 3412 7.1)
     slow = {"s": 0}
     agent.delay_for = lambda req: 0 if req.get("discovery") else slow["s"] * 1024
     fault = plan.get("disco_fault")
@@ -119,7 +128,10 @@ def execute(plan: dict) -> dict:
     probes["level_auth"] = int(level == 1)
     probes["level_priv"] = int(level == 3)
     probes["configured_context_engine"] = int(bool(plan["engine_cfg"]))
+    probes["slow_agent_clock"] = int(rate < 1.0)
+    probes["fast_agent_clock"] = int(rate > 1.0)
     pending = False          # a discontinuity happened and the client has not yet heard from the agent since
+    last_heard = 0.0         # virtual instant of the last message the client received from the agent
     nreq = 0
     time_between = False
 
@@ -164,6 +176,13 @@ def execute(plan: dict) -> dict:
               "walk": {"op": "walk", "root": BASE + (1, 1)}}[opname]
         before = len(agent.requests)
         res = exc = None
+        if rate != 1.0 and level > 0 and nreq > 0:
+            # drift accumulated since the client last heard from the agent: beyond the window no client can be in time
+            drift = (w.loop.time() - last_heard) * abs(1.0 - rate)
+            probes["drift_within_window"] |= int(0 < drift <= 140)
+            if drift > 140:
+                pending = True
+                probes["drift_beyond_window"] = 1
 
         async def one() -> Any:
             return await scen.do_op(client, op)
@@ -203,6 +222,8 @@ def execute(plan: dict) -> dict:
                 fail("context-engine-id", "request carries contextEngineID %r" % sc["ctx_engine"])
         verdicts = [r["verdict"] for r in new]
         heard = any(r["responses"] for r in new)
+        if heard:
+            last_heard = w.loop.time()
         if was_pending:
             if exc is not None:
                 probes["failed_right_after_discontinuity"] = 1
